@@ -1293,6 +1293,7 @@ func (in *interp) pathOf(e ast.Expr) ([]PathElem, string) {
 	case *ast.SelectorExpr:
 		if sel, ok := info.Selections[e]; ok {
 			p, s := in.pathOf(e.X)
+			s = strings.TrimPrefix(s, "&") // (&x).f is x.f
 			return append(append([]PathElem(nil), p...), PathElem{Obj: sel.Obj(), Str: e.Sel.Name}), s + "." + e.Sel.Name
 		}
 		obj := info.ObjectOf(e.Sel)
@@ -1317,6 +1318,7 @@ func (in *interp) pathOf(e ast.Expr) ([]PathElem, string) {
 			if se, ok := ast.Unparen(e.Fun).(*ast.SelectorExpr); ok {
 				if _, isSel := info.Selections[se]; isSel {
 					p, s := in.pathOf(se.X)
+					s = strings.TrimPrefix(s, "&")
 					return append(append([]PathElem(nil), p...), PathElem{Obj: f, Str: f.Name() + "()"}), s + "." + f.Name() + "(" + in.strList(e.Args) + ")"
 				}
 			}
